@@ -71,6 +71,7 @@ mpn_sb_div_qr (mp_ptr qp,
       np--;
       if (UNLIKELY (n1 == d1) && np[1] == d0)
 	{
+	  MPIR_VERIF_HIT (MPIR_VERIF_SB_DIV_N1_EQ_D1);
 	  q = GMP_NUMB_MASK;
 	  mpn_submul_1 (np - dn, dp, dn + 2, q);
 	  n1 = np[1];		/* update n1, last loop's value will now be invalid */
@@ -87,6 +88,7 @@ mpn_sb_div_qr (mp_ptr qp,
 
 	  if (UNLIKELY (cy != 0))
 	    {
+	      MPIR_VERIF_HIT (MPIR_VERIF_SB_DIV_ADDBACK);
 	      n1 += d1 + mpn_add_n (np - dn, np - dn, dp, dn + 1);
          q--;
 	    }
